@@ -4,6 +4,7 @@ from . import common, cv_checks
 
 KF_FS = 'label-omits-required-records'
 KF_NESTED = cv_checks.KF_NESTED
+KF_DENSE = 'label-omits-record-in-dense-cluster'
 
 
 def judge(ctx, res, stream):
@@ -37,6 +38,13 @@ def judge(ctx, res, stream):
                     # UPSTREAM of the peptide that only let translation reach it)
                     how += '; an omitted record lies INSIDE the stretch that encodes the peptide'
                     key = None
+                    # known sub-class: the omitted record sits within 2 nt of a record the entry
+                    # names (hypermutated cluster) and the entry carries no SECT / W2F event
+                    named = [idnames.get(int(x)) for x in (_line.split('\t')[4].split(',') if _line else []) if x]
+                    close = all(any(nm and nm[1] + 2 >= om[0] and om[1] + 2 >= nm[0] for nm in named)
+                                for om in extra if om)
+                    if close and 'SECT-' not in entry and 'W2F-' not in entry:
+                        key = KF_DENSE
             if not problem and cv_checks.has_nested(r):
                 # label bookkeeping inside a splicing insertion that carries records of its own
                 key = KF_NESTED
